@@ -1,6 +1,7 @@
 package main
 
 import (
+	"mime"
 	"path/filepath"
 	"bytes"
 	"fmt"
@@ -138,7 +139,7 @@ func init() {
 		Run: func(c *Ctx) {
 			defer cleanupTemp()
 			n := c.N(500, 20000)
-			sources := []string{"", "seeker", "fs", "iofs", "tpl", "flaky", "htmltpl", "embedfs"}
+			sources := []string{"", "seeker", "fs", "iofs", "tpl", "flaky", "htmltpl", "embedfs", "partly-read"}
 			for i := 0; i < n; i++ {
 				r := c.Rng
 				spc := genSpec(r, genOpts{maxParts: 2, maxFiles: 3, noFails: true, smallContent: true})
@@ -200,6 +201,7 @@ func init() {
 				var first []byte
 				var shared *mail.Reader
 				flakyViaReader := flaky && r.Chance(50)
+				changed := false
 				for h := 0; h < hlen; h++ {
 					path := renderPaths[r.Intn(len(renderPaths))]
 					if h == 0 && path == "fail" && r.Chance(50) {
@@ -224,6 +226,26 @@ func init() {
 						// (decided above)
 					} else if path == "SendmailMissing" {
 						nontrivial = true
+					}
+					if h > 0 && !flaky && r.Chance(12) {
+						// the message is changed between two renders (a preview, then an attachment is added): from here
+						// on every render must equal the first render of the CHANGED message - and be a well-formed
+						// message of the new shape (the boundaries cached by the earlier renders must still fit)
+						f := FileSpec{Attach: r.Chance(70), Name: []string{"added-later.txt", "später.pdf", "x.bin"}[r.Intn(3)], Content: genBody(r, genLen(r, 60))}
+						var ferr error
+						if f.Attach {
+							ferr = m.AttachReader(f.Name, bytes.NewReader(f.Content))
+						} else {
+							ferr = m.EmbedReader(f.Name, bytes.NewReader(f.Content))
+						}
+						if ferr == nil {
+							ops = append(ops, "file", encBool(f.Attach), encS(f.Name), encS(""), encS(""), encS(""), "-", encS(mime.TypeByExtension(filepath.Ext(f.Name))), encB(f.Content), encBool(false))
+							spc.Files = append(spc.Files, f)
+							first = nil
+							changed = true
+							history = append(history, "add-file")
+							nontrivial = true
+						}
 					}
 					history = append(history, path)
 					out, err, line := renderVia(m, path, failAt, &shared)
@@ -281,6 +303,10 @@ func init() {
 					}
 					ops = append(ops, line)
 					wants = append(wants, encB(out)+" "+encN(len(out))+" #0")
+					if changed && first == nil {
+						// first render of the changed message: the strict reader must find the new shape
+						oracleMessage(c, spc, out, true, false)
+					}
 					if first == nil {
 						first = out
 					} else if !bytes.Equal(first, out) {
